@@ -3,6 +3,7 @@
 package gen
 
 import (
+	"encoding/base32"
 	"strings"
 
 	"pgregory.net/rapid"
@@ -30,7 +31,24 @@ func Key() *rapid.Generator[[]byte] {
 			// raw bytes): base32 text (unpadded, a multiple of 8 characters), hex digits, decimal digits
 			m := rapid.SampledFrom([]int{10, 15, 20, 25, 40, 80}).Draw(t, "keyTextOf")
 			raw := rapid.SliceOfN(rapid.Byte(), m, m).Draw(t, "keyTextRaw")
-			switch rapid.IntRange(0, 3).Draw(t, "keyTextKind") {
+			switch rapid.IntRange(0, 4).Draw(t, "keyTextKind") {
+			case 4: // a key whose base32 TEXT consists of hex digits only (A-F, 2-7) and has the length of a hex-written
+				// digest (40, 64, 128) or key: a reader that "recognises" hex secrets takes it for another key
+				l := rapid.SampledFrom([]int{40, 64, 128, 32, 16}).Draw(t, "keyHexLookLen")
+				txt := make([]byte, l)
+				for i := range txt {
+					txt[i] = "ABCDEF234567"[int(raw[i%len(raw)]+byte(i))%12]
+				}
+				if rapid.IntRange(0, 3).Draw(t, "keyHexLookConst") == 0 {
+					for i := range txt {
+						txt[i] = "AF27"[int(raw[0])%4]
+					}
+				}
+				k, err := base32.StdEncoding.DecodeString(string(txt))
+				if err != nil {
+					return raw
+				}
+				return k
 			case 0:
 				return []byte(ref.B32(raw))
 			case 1:
